@@ -58,10 +58,52 @@ def accepts(fn, call):
   return True, ''
 
 
+def engines_at(repo, fi, call, names):
+  """Dialect names a call site can be reached with: restricted when the site
+  is guarded by a test of <dialect>.Name() against constants (a method only
+  one dialect has may be called under such a test); None = any."""
+  try:
+    v = FnView(repo, fi.fq)
+  except AnalysisError:
+    return None
+  node = None
+  for n, c in v.all_calls():
+    if c is call:
+      node = n
+  if node is None:
+    return None
+  allowed = None
+  for e, val in v.guards(node):
+    for c in ast.walk(e) if isinstance(e, ast.BoolOp) and isinstance(e.op, ast.And) and val else [e]:
+      if not (isinstance(c, ast.Compare) and len(c.ops) == 1):
+        continue
+      l = v.expand(c.left)
+      if not (isinstance(l, ast.Call) and call_tail(l) == 'Name'):
+        continue
+      try:
+        consts = tables.const_value(c.comparators[0])
+      except AnalysisError:
+        continue
+      consts = set([consts] if isinstance(consts, str) else consts)
+      pos = isinstance(c.ops[0], (ast.Eq, ast.In))
+      if not isinstance(c.ops[0], (ast.Eq, ast.In, ast.NotEq, ast.NotIn)):
+        continue
+      here = consts if (pos == bool(val)) else set(names) - consts
+      allowed = here if allowed is None else allowed & here
+  return allowed
+
+
 def interface(chk, rid):
   repo = chk.repo
   classes = templates.dialect_classes(repo)
   calls = dialect_calls(repo)
+  name_of = {}
+  for engine, cls in classes.items():
+    nm, _ = templates.dialect_const(repo, cls, 'Name')
+    name_of[cls] = nm
+  restricted = {}
+  for fi, c, meth in calls:
+    restricted[id(c)] = engines_at(repo, fi, c, set(name_of.values()))
   methods = {}
   for fi, c, meth in calls:
     methods.setdefault(meth, []).append((fi, c))
@@ -73,6 +115,11 @@ def interface(chk, rid):
   m = repo.by_name('dialects')
   for engine, cls in sorted(classes.items()):
     for meth, sites in sorted(methods.items()):
+      # sites this dialect can reach
+      sites = [(fi, c) for fi, c in sites
+               if restricted.get(id(c)) is None or name_of.get(cls) in restricted[id(c)]]
+      if not sites:
+        continue
       impl = repo.lookup_method(m, cls, meth)
       if impl is None:
         chk.ob(rid, False, 'compiler/dialects.py:%s' % cls,
@@ -673,6 +720,12 @@ def balanced_emission(chk, rid):
       if isinstance(x, ast.Constant) and isinstance(p, ast.Call) and \
           not (call_tail(p) in ('append', 'extend')):
         continue      # argument of a lookup / helper, not emitted text
+      if isinstance(p, ast.Call) and any(x is a_ for a_ in p.args) and call_tail(p) in (
+          'replace', 'startswith', 'endswith', 'split', 'rsplit', 'find', 'rfind', 'index',
+          'count', 'strip', 'lstrip', 'rstrip', 'partition', 'get', 'pop', 'setdefault'):
+        continue      # a search pattern / replacement text / key, not a fragment of SQL
+      if isinstance(p, (ast.For, ast.comprehension)) and p.iter is x:
+        continue      # a set of characters iterated over, not a fragment of SQL
       if in_diag(x):
         continue
       n_expr += 1
@@ -743,6 +796,11 @@ def run(chk):
   chk.assume('A2: identifier holes (field, predicate, table, type names) contain no '
              'quote or bracket characters')
   balanced_emission(chk, 'C09-R3')
+  # a string literal is part of the emitted text too: it must be one closed
+  # literal of the dialect for every string (exhaustive over the alphabet of
+  # rules/c10.py), otherwise the rest of the statement is read as a string
+  from rules.c10 import sanitisers
+  sanitisers(chk, 'C09-R3')
   chk.rule('C09-R4', 'no placeholder leak: UNUSED entries are special-cased '
            'before the generic loop, the DUMMY() UDF bootstrap is '
            'overwritten, the nil marker is a SQL comment and is filtered',
